@@ -2134,7 +2134,7 @@ Lemma apply_op_coh d s v o v' n :
   wfd d = true -> rets_distinct d = true -> wired d s -> coh d s v -> macro_level o ->
   apply_op s v o = Some (v', n) -> coh d s v'.
 Proof.
-  intros Hwf Hrd Hw Hc Hm H. destruct o as [[|r p] k x|p l x| |[|r p] k|kw]; simpl in Hm; try tauto; simpl in H.
+  intros Hwf Hrd Hw Hc Hm H. destruct o as [[|r p] k x|p l x| |[|r p] k|kw|p]; simpl in Hm; try tauto; simpl in H.
   - inversion H; subst. rewrite set_in_at_nil. now apply set_in_coh_any.
   - destruct (run s v) as [[[v1 c1] p1]|] eqn:Er; [|discriminate]. inversion H; subst.
     eapply run_keeps_coh; eauto.
@@ -2457,9 +2457,58 @@ Proof.
     apply vshape_intro; simpl; auto.
 Qed.
 
+Lemma relink_inputs_shape recvs ins j w :
+  List.length (v_ins (relink_inputs recvs ins j w)) = List.length (v_ins w) /\
+  v_outs (relink_inputs recvs ins j w) = v_outs w.
+Proof.
+  unfold relink_inputs. generalize (seq 0 (List.length recvs)) as l. intros l. revert w.
+  induction l as [|i r IH]; intros w; simpl; auto.
+  destruct (nth i recvs ROrphan) as [i'|j' k|]; auto.
+  destruct (Nat.eqb j' j); auto.
+  destruct (IH (set_fn w k (nth i ins None))) as [A B]. rewrite A, B. destruct w; simpl. now rewrite upd_nth_length.
+Qed.
+
+Lemma vshape_replace_at : forall s v p v' q, vshape s v -> replace_at s v p = Some (v', q) -> vshape s v'.
+Proof.
+  induction s as [lab i a|lab ps ols recvs kept uirecv body manual order IH] using snode_ind'; intros v p v' q Hv H.
+  - destruct p; discriminate.
+  - destruct p as [|[i|j] p]; try discriminate.
+    destruct (vshape_kids _ _ _ _ _ _ _ _ _ _ Hv) as [HLb Hk].
+    pose proof Hv as (A & B & C & D & _). destruct v as [ins outs c ui vb]. simpl in A, B, C, D, HLb, Hk.
+    cbn [replace_at] in H. destruct (Nat.ltb_spec j (List.length body)) as [Hj|Hj]; [|discriminate].
+    destruct p as [|r p].
+    + rewrite dispatch_spec in H. replace (Nat.ltb j (List.length body)) with true in H by (symmetry; now apply Nat.ltb_lt).
+      fold (kid body j) in H. pose proof (Hk j Hj) as Hkj.
+      destruct (kid body j) as [l0 idf a0|] eqn:Ek; [|simpl in H; discriminate].
+      destruct idf; simpl in H; [discriminate|]. simpl in Hkj.
+      set (w := relink_inputs recvs ins j _) in H.
+      destruct (relink_inputs_shape recvs ins j (VN (v_ins (nth j vb dv)) (v_outs (nth j vb dv)) None [] [])) as [R1 R2].
+      fold w in R1, R2. simpl in R1, R2.
+      pose proof (apply_pushes_len (sb_orecv (nth j body dsb)) (all_out_pushes w) outs) as Hl.
+      destruct (apply_pushes (sb_orecv (nth j body dsb)) (all_out_pushes w) outs) as [o' q']. simpl in Hl.
+      inversion H; subst v' q. apply vshape_intro; simpl; rewrite ?upd_nth_length; auto; try (exact (eq_trans Hl B)).
+      intros j' Hj'. destruct (Nat.eq_dec j' j) as [->|Hne].
+      * rewrite nth_upd_same by lia. rewrite Ek. simpl. rewrite R1, R2. exact Hkj.
+      * rewrite nth_upd_other by auto. auto.
+    + set (p' := r :: p) in *. assert (Hp : match p' with [] => False | _ => True end) by exact I.
+      destruct p' as [|r' p'']; [destruct Hp|].
+      rewrite dispatch_spec in H. replace (Nat.ltb j (List.length body)) with true in H by (symmetry; now apply Nat.ltb_lt).
+      fold (kid body j) in H.
+      destruct (replace_at (kid body j) (nth j vb dv) (r' :: p'')) as [[vj' ps']|] eqn:Er; [|discriminate].
+      pose proof (IH j _ _ _ _ (Hk j Hj) Er) as Hvj.
+      pose proof (apply_pushes_len (sb_orecv (nth j body dsb)) ps' outs) as Hl.
+      destruct (apply_pushes (sb_orecv (nth j body dsb)) ps' outs) as [o' q']. simpl in Hl.
+      inversion H; subst v' q. apply vshape_intro; simpl; rewrite ?upd_nth_length; auto; try (exact (eq_trans Hl B)).
+      intros j' Hj'. destruct (Nat.eq_dec j' j) as [->|Hne].
+      * rewrite nth_upd_same by lia. exact Hvj.
+      * rewrite nth_upd_other by auto. auto.
+Qed.
+
 Lemma apply_op_vshape s v o v' n : vshape s v -> apply_op s v o = Some (v', n) -> vshape s v'.
 Proof.
-  intros Hv H. destruct o as [p k x|p l x| |p k|kw]; simpl in H.
+  intros Hv H. destruct o as [p k x|p l x| |p k|kw|p]; simpl in H;
+    [| | | | |destruct (replace_at s v p) as [[v1 q1]|] eqn:Er; [|discriminate]; inversion H; subst;
+              eapply vshape_replace_at; eauto].
   - inversion H; subst. now apply vshape_set_in_at.
   - inversion H; subst. now apply vshape_set_out_at.
   - destruct (run s v) as [[[v1 c1] p1]|] eqn:Er; [|discriminate]. inversion H; subst. eapply vshape_run; eauto.
@@ -3191,7 +3240,8 @@ Fixpoint free_out (s : snode) (p : list kidref) (l : nat) {struct s} : Prop :=
   end.
 
 Definition free_op (s : snode) (o : op) : Prop :=
-  match o with OSetIn p k _ => free_in s p k | OSetOut p l _ => free_out s p l | ORun => True | OSetBad _ _ => True | ORunKw _ => True end.
+  match o with OSetIn p k _ => free_in s p k | OSetOut p l _ => free_out s p l | ORun => True | OSetBad _ _ => True | ORunKw _ => True
+  | OReplace _ => True end.
 
 Lemma synced_set_in_at : forall s v p k x, slinks s -> vshape s v -> synced s v -> free_in s p k ->
   synced s (set_in_at s v p k x).
@@ -3328,6 +3378,153 @@ Proof.
       * intros lx Hin. rewrite B. apply Her; auto. intros l0 o Hl. eauto.
 Qed.
 
+Lemma relink_inputs_nth recvs ins j w0 k :
+  let w := relink_inputs recvs ins j w0 in
+  (forall i, i < List.length recvs -> nth i recvs ROrphan = RBody j k -> k < List.length (v_ins w0) ->
+     (forall i', i' < List.length recvs -> nth i' recvs ROrphan = RBody j k -> i' = i) ->
+     nth k (v_ins w) None = nth i ins None) /\
+  ((forall i, i < List.length recvs -> nth i recvs ROrphan <> RBody j k) -> nth k (v_ins w) None = nth k (v_ins w0) None).
+Proof.
+  unfold relink_inputs.
+  set (f := fun (w : vnode) (i : nat) => match nth i recvs ROrphan with
+                                         | RBody j' k0 => if Nat.eqb j' j then set_fn w k0 (nth i ins None) else w
+                                         | _ => w end).
+  assert (Hlen : forall w1 a, List.length (v_ins (f w1 a)) = List.length (v_ins w1)).
+  { intros w1 a. unfold f. destruct (nth a recvs ROrphan) as [|j' k0|]; auto. destruct (Nat.eqb j' j); auto.
+    rewrite set_fn_ins. apply upd_nth_length. }
+  assert (G : forall l w1,
+             (forall i, (forall i', In i' l -> nth i' recvs ROrphan = RBody j k -> i' = i) ->
+                ((In i l /\ nth i recvs ROrphan = RBody j k) \/ nth k (v_ins w1) None = nth i ins None) ->
+                k < List.length (v_ins w1) -> nth k (v_ins (fold_left f l w1)) None = nth i ins None) /\
+             ((forall i, In i l -> nth i recvs ROrphan <> RBody j k) ->
+                nth k (v_ins (fold_left f l w1)) None = nth k (v_ins w1) None)).
+  { induction l as [|a r IH]; intros w1; simpl.
+    - split; [|auto]. intros i _ [[[] _]|H] _; auto.
+    - destruct (IH (f w1 a)) as [B C]. split.
+      + intros i Hu Hor Hk. apply B; [intros i' Hi'; apply Hu; now right| |now rewrite Hlen].
+        unfold f at 1. destruct (nth a recvs ROrphan) as [|j' k0|] eqn:Ea.
+        * destruct Hor as [[[->|Hi] Hr]|H]; [congruence|left; auto|right; auto].
+        * destruct (Nat.eqb_spec j' j) as [->|Hnj].
+          -- destruct (Nat.eq_dec k0 k) as [->|Hnk].
+             ++ assert (a = i) by (apply Hu; auto). subst a. right. rewrite set_fn_ins. now apply nth_upd_same.
+             ++ destruct Hor as [[[->|Hi] Hr]|H]; [congruence|left; auto|right].
+                rewrite set_fn_ins. rewrite nth_upd_other; auto.
+          -- destruct Hor as [[[->|Hi] Hr]|H]; [congruence|left; auto|right; auto].
+        * destruct Hor as [[[->|Hi] Hr]|H]; [congruence|left; auto|right; auto].
+      + intros Hn. rewrite C by (intros i Hi; apply Hn; now right).
+        unfold f. pose proof (Hn a (or_introl eq_refl)) as Hna.
+        destruct (nth a recvs ROrphan) as [|j' k0|]; auto. destruct (Nat.eqb_spec j' j) as [->|]; auto.
+        rewrite set_fn_ins. apply nth_upd_other. intros ->. now apply Hna. }
+  destruct (G (seq 0 (List.length recvs)) w0) as [B C]. split.
+  - intros i Hi Hr Hk Hu. apply B; auto.
+    + intros i' Hi'. apply Hu. apply in_seq in Hi'. lia.
+    + left. split; auto. apply in_seq. lia.
+  - intros Hn. apply C. intros i Hi. apply Hn. apply in_seq in Hi. lia.
+Qed.
+
+Lemma app_pushes_self (co : list val) :
+  app_pushes (map (fun l => (l, nth l co None)) (seq 0 (List.length co))) co = co.
+Proof.
+  assert (G : forall l acc, (forall x, In x l -> nth x acc None = nth x co None) -> List.length acc = List.length co ->
+            app_pushes (map (fun l0 => (l0, nth l0 co None)) l) acc = acc).
+  { induction l as [|a r IH]; intros acc H HL; simpl; auto.
+    assert (E : upd_nth a (nth a co None) acc = acc).
+    { rewrite <- (H a (or_introl eq_refl)). apply upd_nth_same_val. }
+    rewrite E. apply IH; auto. intros x Hx. apply H. now right. }
+  apply G; auto.
+Qed.
+
+Lemma synced_replace_at : forall s v p v' q, slinks s -> sranges s -> vshape s v -> synced s v ->
+  replace_at s v p = Some (v', q) ->
+  synced s v' /\ v_outs v' = app_pushes q (v_outs v) /\
+  (forall lx, In lx q -> fst lx < List.length (v_outs v)) /\ v_ins v' = v_ins v.
+Proof.
+  induction s as [lab i a|lab ps ols recvs kept uirecv body manual order IH] using snode_ind';
+    intros v p v' q Hsl Hsr Hv Hsy H.
+  - destruct p; discriminate.
+  - destruct p as [|[i|j] p]; try discriminate.
+    destruct (vshape_kids _ _ _ _ _ _ _ _ _ _ Hv) as [HLb Hkv].
+    pose proof (slinks_kids _ _ _ _ _ _ _ _ _ Hsl) as Hks.
+    pose proof (sranges_kids _ _ _ _ _ _ _ _ _ Hsr) as Hkr.
+    pose proof (synced_kids _ _ _ _ _ _ _ _ _ _ Hsy) as Hksy.
+    destruct (synced_elim _ _ _ _ _ _ _ _ _ _ Hsy) as (HI & HU & HB).
+    pose proof Hv as (A & B & C & D & _).
+    pose proof Hsl as (Lr & Lk & S0 & S2 & S3 & S4 & S5 & S6 & S7 & _).
+    pose proof Hsr as (_ & RL & R2 & R3 & _).
+    destruct v as [ins outs c ui vb]. simpl in A, B, C, D, HLb, Hkv, Hksy, HI, HU, HB.
+    cbn [replace_at] in H. destruct (Nat.ltb_spec j (List.length body)) as [Hj|Hj]; [|discriminate].
+    destruct p as [|r p].
+    + (* the function child itself *)
+      rewrite dispatch_spec in H. replace (Nat.ltb j (List.length body)) with true in H by (symmetry; now apply Nat.ltb_lt).
+      fold (kid body j) in H. pose proof (Hkv j Hj) as Hkj.
+      destruct (kid body j) as [l0 idf a0|] eqn:Ek; [|simpl in H; discriminate].
+      destruct idf; simpl in H; [discriminate|]. simpl in Hkj. destruct Hkj as [Hki Hko].
+      set (w0 := VN (v_ins (nth j vb dv)) (v_outs (nth j vb dv)) None [] []) in H.
+      set (w := relink_inputs recvs ins j w0) in H.
+      destruct (relink_inputs_shape recvs ins j w0) as [R1' R2']. fold w in R1', R2'. simpl in R1', R2'.
+      pose proof (apply_pushes_exact (sb_orecv (nth j body dsb)) (all_out_pushes w) outs) as Hex.
+      pose proof (apply_pushes_range (sb_orecv (nth j body dsb)) (all_out_pushes w) outs (List.length ols)) as Her.
+      destruct (apply_pushes_link (sb_orecv (nth j body dsb)) (all_out_pushes w) outs (v_outs w)) as [Hlk1 Hlk2].
+      { intros l1 l' o Hl Hl'. destruct (S3 j l1 j l' o Hj Hj Hl Hl'); auto. }
+      { intros l1 o Hl. exact (eq_ind_r (fun n => o < n) (R3 j l1 o Hj Hl) B). }
+      { unfold all_out_pushes. intros lx Hin. apply in_map_iff in Hin as (x & <- & Hx). simpl. apply in_seq in Hx. exact (proj2 Hx). }
+      { intros l1 o Hl. rewrite R2'. apply HB; auto. }
+      assert (Eself : app_pushes (all_out_pushes w) (v_outs w) = v_outs w) by apply app_pushes_self.
+      rewrite Eself in Hlk1.
+      destruct (apply_pushes (sb_orecv (nth j body dsb)) (all_out_pushes w) outs) as [o' q']. cbn [fst snd] in *.
+      inversion H; subst v' q. cbn [v_outs v_ins].
+      split; [|split; [exact Hex|split; [|reflexivity]]].
+      * apply synced_intro; simpl; rewrite ?upd_nth_length; auto.
+        -- intros i0 Hi0. pose proof (HI i0 Hi0) as HIi. pose proof (S0 i0 Hi0) as S0i.
+           destruct (nth i0 recvs ROrphan) as [i'|j2 k2|] eqn:Er; auto.
+           destruct (Nat.eq_dec j2 j) as [->|Hne]; [|now rewrite nth_upd_other by lia].
+           rewrite nth_upd_same by lia.
+           destruct S0i as (_ & _ & Hk2 & _). rewrite Ek in Hk2. simpl in Hk2.
+           destruct (relink_inputs_nth recvs ins j w0 k2) as [RN _]. fold w in RN.
+           apply (RN i0); auto; [lia|simpl; lia|].
+           intros i' Hi' Hr'. apply (S2 i' i0 j k2); auto; lia.
+        -- intros i0 o Hi0 Hk0 Ho. rewrite Hlk2; auto. intros l1 Hl. eapply S4; eauto.
+        -- intros j' lo o Hj' Ho. destruct (Nat.eq_dec j' j) as [->|Hne].
+           ++ rewrite nth_upd_same by lia. apply Hlk1; auto.
+           ++ rewrite nth_upd_other by auto. rewrite Hlk2; auto.
+              intros l1 Hl. destruct (S3 j l1 j' lo o Hj Hj' Hl Ho). congruence.
+        -- intros j' Hj'. destruct (Nat.eq_dec j' j) as [->|Hne].
+           ++ rewrite nth_upd_same by lia. rewrite Ek. exact I.
+           ++ rewrite nth_upd_other by auto. auto.
+      * intros lx Hin. rewrite B. apply Her; auto. intros l1 o Hl. eauto.
+    + (* below a child *)
+      set (p' := r :: p) in *. assert (Hp : match p' with [] => False | _ => True end) by exact I.
+      destruct p' as [|r' p'']; [destruct Hp|].
+      rewrite dispatch_spec in H. replace (Nat.ltb j (List.length body)) with true in H by (symmetry; now apply Nat.ltb_lt).
+      fold (kid body j) in H.
+      destruct (replace_at (kid body j) (nth j vb dv) (r' :: p'')) as [[vj' pp]|] eqn:Er; [|discriminate].
+      destruct (IH j _ _ _ _ (Hks j Hj) (Hkr j Hj) (Hkv j Hj) (Hksy j Hj) Er) as (I1 & I2 & I3 & I4).
+      pose proof (apply_pushes_exact (sb_orecv (nth j body dsb)) pp outs) as Hex.
+      pose proof (apply_pushes_range (sb_orecv (nth j body dsb)) pp outs (List.length ols)) as Her.
+      destruct (apply_pushes_link (sb_orecv (nth j body dsb)) pp outs (v_outs (nth j vb dv))) as [Hlk1 Hlk2].
+      { intros l0 l' o Hl Hl'. destruct (S3 j l0 j l' o Hj Hj Hl Hl'); auto. }
+      { intros l0 o Hl. exact (eq_ind_r (fun n => o < n) (R3 j l0 o Hj Hl) B). }
+      { exact I3. }
+      { intros l0 o Hl. apply HB; auto. }
+      rewrite <- I2 in Hlk1.
+      destruct (apply_pushes (sb_orecv (nth j body dsb)) pp outs) as [o' q']. cbn [fst snd] in *.
+      inversion H; subst v' q. cbn [v_outs v_ins].
+      split; [|split; [exact Hex|split; [|reflexivity]]].
+      * apply synced_intro; simpl; rewrite ?upd_nth_length; auto.
+        -- intros i0 Hi0. specialize (HI i0 Hi0). destruct (nth i0 recvs ROrphan) as [i'|j2 k2|]; auto.
+           destruct (Nat.eq_dec j2 j) as [->|Hne]; [|now rewrite nth_upd_other by lia].
+           rewrite nth_upd_same by lia. now rewrite I4.
+        -- intros i0 o Hi0 Hk0 Ho. rewrite Hlk2; auto. intros l0 Hl. eapply S4; eauto.
+        -- intros j' lo o Hj' Ho. destruct (Nat.eq_dec j' j) as [->|Hne].
+           ++ rewrite nth_upd_same by lia. apply Hlk1; auto.
+           ++ rewrite nth_upd_other by auto. rewrite Hlk2; auto.
+              intros l0 Hl. destruct (S3 j l0 j' lo o Hj Hj' Hl Ho). congruence.
+        -- intros j' Hj'. destruct (Nat.eq_dec j' j) as [->|Hne].
+           ++ rewrite nth_upd_same by lia. exact I1.
+           ++ rewrite nth_upd_other by auto. auto.
+      * intros lx Hin. rewrite B. apply Her; auto. intros l0 o Hl. eauto.
+Qed.
+
 Lemma set_kw_synced s kw : slinks s -> forall v, vshape s v -> synced s v ->
   vshape s (set_kw s v kw) /\ synced s (set_kw s v kw).
 Proof.
@@ -3347,7 +3544,9 @@ Proof.
   - destruct (apply_op s v0 o) as [[v1 n]|] eqn:E1; [|discriminate]. inversion Hall; subst.
     assert (Hv1 : vshape s v1) by (eapply apply_op_vshape; eauto).
     assert (Hs1 : synced s v1).
-    { destruct o as [p k x|p lo x| |p k|kw]; simpl in E1, H2.
+    { destruct o as [p k x|p lo x| |p k|kw|p]; simpl in E1, H2;
+        [| | | | |destruct (replace_at s v0 p) as [[v2 q2]|] eqn:Er; [|discriminate]; inversion E1; subst;
+                  exact (proj1 (synced_replace_at s v0 p v1 q2 Hsl Hsr Hv0 Hs0 Er))].
       - inversion E1; subst. apply synced_set_in_at; auto.
       - inversion E1; subst. apply synced_set_out_at; auto.
       - destruct (run s v0) as [[[v2 c2] p2]|] eqn:Er; [|discriminate]. inversion E1; subst.
